@@ -1455,9 +1455,9 @@ func (fx *Fx) impliedByAssumption(st *State, goal *Term) bool {
 
 // newLocal allocates a new object: it differs from every object the current activation can name, including the
 // symbolic ones (loop-carried or returned by callees), which were allocated earlier.
-func (fx *Fx) newLocal(st *State, zero bool, name string) *LObj {
-	lo := st.NewLocal(zero, name)
-	L := LocalObj(lo.ID)
+// objectLeaves: the symbolic object terms held in the frames of st that are neither locals, constants nor certainly
+// pre-state objects.
+func (fx *Fx) objectLeaves(st *State) []*Term {
 	seen := map[*Term]bool{}
 	var leaves []*Term
 	var scan func(t *Term)
@@ -1488,7 +1488,13 @@ func (fx *Fx) newLocal(st *State, zero bool, name string) *LObj {
 			}
 		}
 	}
-	for _, t := range leaves {
+	return leaves
+}
+
+func (fx *Fx) newLocal(st *State, zero bool, name string) *LObj {
+	lo := st.NewLocal(zero, name)
+	L := LocalObj(lo.ID)
+	for _, t := range fx.objectLeaves(st) {
 		fx.assume(st, Not(Eq(t, L)))
 	}
 	return lo
